@@ -3,6 +3,8 @@
 //! traces that TLC validates against the TLA+ specification in /verif/spec.
 
 mod addr;
+mod cpu;
+mod cpufam;
 mod gen;
 mod out;
 mod physmem;
@@ -57,6 +59,7 @@ fn main() {
     let args = parse();
     out::silence_panics();
     trap::install();
+    cpu::install();
     let mut o = Out::create(&args.out);
     match args.family.as_str() {
         "addr" => match args.prop.as_str() {
@@ -68,6 +71,9 @@ fn main() {
             "C20" => addr::run_c20_pure(&mut o, args.seed, args.n),
             _ => usage(),
         },
+        "ports" => cpufam::run_ports(&mut o, args.seed, args.n),
+        "intr" => cpufam::run_intr(&mut o, args.seed, args.n),
+        "flush" => cpufam::run_flush(&mut o, args.seed, args.n),
         "pt" => {
             let kinds: Vec<&str> = if args.mode.is_empty() { vec!["mapped", "offset"] } else { args.mode.split(',').collect() };
             pt::run_random(&mut o, args.seed, args.n, &kinds, &args.prop)
